@@ -357,7 +357,6 @@ _shapes = [  # name, what, tier of W/R
     ("bound_d0", "first byte exactly on a boundary", "thorough"),
     ("pad_d5", "5 bytes before the boundary: padding, then the frame", "thorough"),
     ("split_d21", "21 bytes before the boundary: split with a 2-byte first frame", "thorough"),
-    ("split_d26", "26 bytes before the boundary, key 3 / value 4 bytes: a larger split", "thorough"),
 ]
 _c12 = []
 _PAY = "key and value bytes: all values < 0x80; timestamps fixed (5, 6); lengths concrete"
@@ -367,6 +366,7 @@ for n, what, t1 in _shapes:
         (f"r_{n}", t1, 1800, f"R: for ALL payloads the real reader on the instantiated template yields exactly the appended entries, in order ({what})", _PAY),
     ]
 _c12 += [
+    ("w_split_d26", "thorough", 1800, "W only, for a larger split (26 bytes before the boundary, key 3 / value 4 bytes); its R half does not finish (1800 s) -- the image is read only by the torn-batch harness t_split_d26_at_boundary", _PAY),
     ("w_batch2_d32", "thorough", 1800, "W for ONE batch of two entries split across the boundary (the image the k_batch2 truncations are taken from)", _PAY),
     ("k_whole_d40_empty", "thorough", 1200, "R-cut at length 0: the empty log ends cleanly", _PAY),
     ("k_whole_d40_last_byte", "quick", 1800, "R-cut one byte before the end of the only frame: no entry, end or error", _PAY),
@@ -375,12 +375,16 @@ _c12 += [
     ("k_batch2_d32_before_boundary", "thorough", 2400, "same, one byte before the boundary (inside the padding)", _PAY),
     ("k_batch2_d32_after_boundary", "thorough", 2400, "same, one byte after the boundary (inside the second header)", _PAY),
     ("k_batch2_d32_mid_padding", "thorough", 2400, "same, in the middle of the padding", _PAY),
+    ("t_batch2_d32_at_boundary", "quick", 1800, "torn batch, first next() only: the two-entry batch cut at the block boundary (its first frame holds a whole entry) returns no entry; the W half for this image is w_batch2_d32 in the thorough tier", _PAY),
+    ("t_batch2_d32_after_boundary", "thorough", 1800, "same, cut one byte into the second header", _PAY),
+    ("t_batch2_d32_mid_padding", "thorough", 1800, "same, cut inside the padding", _PAY),
+    ("t_split_d26_at_boundary", "thorough", 1800, "torn batch, first next() only: the larger single-entry split cut at the block boundary returns no entry", _PAY),
 ]
 PROPS["C12"] = dict(
     harnesses=hs2("sst", "log::verif_harness::", unwind=3, stubs=_LOGSTUBS, mem=28, items=_c12),
     needs_templates=True,
     level_text="x", level_note="y",
 )
-_claim("C12", "The log write->read round trip is decomposed at the byte image: T (natively, every run) derives the image layout from the real writer; W (solver) shows the writer produces exactly that layout for ALL payloads; R (solver) shows the reader returns exactly the appended entries from it, and a prefix then end-or-error from every truncation. Shapes place ONE single-entry batch at distances 0, 5, 19, 20, 21, 22, 26, 40 from a 1 MiB boundary (on the boundary, padding, largest padding, smallest split, exact fit, whole); truncations of these and of a split two-entry batch.",
+_claim("C12", "The log write->read round trip is decomposed at the byte image: T (natively, every run) derives the image layout from the real writer; W (solver) shows the writer produces exactly that layout for ALL payloads; R (solver) shows the reader returns exactly the appended entries from it, and a prefix then end-or-error from every truncation. Shapes place ONE single-entry batch at distances 0, 5, 19, 20, 21, 22, 40 from a 1 MiB boundary (on the boundary, padding, largest padding, smallest split, exact fit, whole); truncations of these and of a split two-entry batch.",
        "W and R share the template instantiation, so their conjunction is the round trip; the checksum is a cheap stand-in function used identically on both sides (agreement on WHICH bytes are summed is still checked). Counterexamples are replayed natively against the real writer+reader with the real CRC.", "DESIGN.md 3/C12",
        "reading a SECOND entry or the end of the log after a successful entry (the queries do not finish: 30-40 min), so multi-batch logs are outside; symbolic timestamps; ConcurrentLogBuilder and the coalescing queues (threads), durability/fsync, log_to_builder/truncate_final_partial_frame (open a File), batches near MAX_BATCH_SIZE")
